@@ -107,8 +107,17 @@ def check_index_model(case):
     p = case["perm"]
     eff = ref.inverse_perm(p) if case["inv"] else p
     exp = ref.permute(x, eff, case["dr"], case["dc"], row_only=case["row_only"])
-    out = permute_systems(_as_form(x, case["form"]), list(p), _dim_arg(case), case["row_only"], case["inv"])
+    x_in = _as_form(x, case["form"])
+    x0 = x.copy()
+    p_arg = list(p)
+    dim_arg = _dim_arg(case)
+    dim0 = None if dim_arg is None else np.array(dim_arg, dtype=float).copy()
+    out = permute_systems(x_in, p_arg, dim_arg, case["row_only"], case["inv"])
     _cmp(out, exp, case["x"]["src"] != "prng" or case["x"]["dtype"] == "int", "permute_systems")
+    req(p_arg == list(p), "permute_systems modified the caller's permutation", "args-mutated")
+    req(np.array_equal(_dense(x_in), x0), "permute_systems modified the caller's input array", "args-mutated")
+    if dim_arg is not None:
+        req(np.array_equal(np.array(dim_arg, dtype=float), dim0), "permute_systems modified the caller's `dim` argument", "args-mutated")
     if case["x"]["dtype"] == "int" and not sp.issparse(out):
         req(np.issubdtype(np.asarray(out).dtype, np.integer), "integer input did not give integer output", "dtype")
 
@@ -314,7 +323,16 @@ def _swap_case(draw):
         # an integer dim is only meaningful for matrices: for a vector the library (like QETLAB) divides the
         # length-1 side by it and rejects the call
         forms += ["scalar"]
-    return {"dr": dr, "dc": dc, "kind": kind, "sys": [i, j], "x": spec, "dimform": draw(st.sampled_from(forms)), "row_only": draw(st.booleans())}
+    return {
+        "dr": dr,
+        "dc": dc,
+        "kind": kind,
+        "sys": [i, j],
+        "sysform": draw(st.sampled_from(["list", "array"])),
+        "x": spec,
+        "dimform": draw(st.sampled_from(forms)),
+        "row_only": draw(st.booleans()),
+    }
 
 
 def check_swap(case):
@@ -327,6 +345,21 @@ def check_swap(case):
     p = list(range(n))
     p[i - 1], p[j - 1] = p[j - 1], p[i - 1]
     f = case["dimform"]
+    sys_arg = np.array(case["sys"]) if case.get("sysform") == "array" else list(case["sys"])
+
+    def call_twice(fn, arr, dim_arg, *rest):
+        """the same argument objects are reused: a call must neither modify them nor depend on an earlier call"""
+        arr0 = arr.copy()
+        dim0 = None if dim_arg is None else np.array(dim_arg, dtype=float).copy()
+        first = np.asarray(fn(arr, sys_arg, dim_arg, *rest))
+        req(np.array_equal(np.asarray(sys_arg), np.asarray(case["sys"])), "swap modified the caller's `sys` argument", "args-mutated")
+        req(np.array_equal(arr, arr0), "swap modified the caller's input array", "args-mutated")
+        if dim_arg is not None and not isinstance(dim_arg, int):
+            req(np.array_equal(np.array(dim_arg, dtype=float), dim0), "swap modified the caller's `dim` argument", "args-mutated")
+        second = np.asarray(fn(arr, sys_arg, dim_arg, *rest))
+        req(first.shape == second.shape and np.array_equal(first, second), "a second identical swap call returned a different result", "history-dependent")
+        return first
+
     if kind.startswith("vec"):
         v = x[:, 0] if kind == "vec1d" else x
         exp = ref.permute_vec(x[:, 0], p, dr)
@@ -336,7 +369,7 @@ def check_swap(case):
             dim = None
         else:
             dim = list(dr)
-        out = np.asarray(swap(v, list(case["sys"]), dim)).reshape(-1)
+        out = call_twice(swap, v, dim).reshape(-1)
         req(out.size == exp.size and np.array_equal(out, exp) if case["x"]["src"] != "prng" else np.allclose(out, exp, atol=1e-9), "swap(vector) is not the transposition", "value")
         return
     if min(x.shape) < 2:
@@ -354,7 +387,7 @@ def check_swap(case):
         dim = [list(dr), list(dc)]
     else:
         dim = list(dr)
-    out = np.asarray(swap(x, list(case["sys"]), dim, row_only))
+    out = call_twice(swap, x, dim, row_only)
     _cmp(out, exp, case["x"]["src"] != "prng" or case["x"]["dtype"] == "int", "swap")
 
 
